@@ -85,7 +85,7 @@ fn call(ty: &str, g: &G) -> Out {
             for x in &g.v {
                 let y: $t = conv(*x);
                 let z: f64 = back(y);
-                assert!(z == *x, "request value {x} is not representable in {}", ty);
+                assert!(z == *x || (z.is_nan() && x.is_nan()), "request value {x} is not representable in {}", ty);
             }
             let a: Arr2D<$t> = g.arr($zero, conv);
             of_result(catch(move || a.inverse()))
@@ -201,16 +201,22 @@ pub fn expectation(a: &G) -> (Option<bool>, &'static str) {
 /// Both products against the identity, exactly.  Tolerance (see tools/props/c10.py for the justification):
 /// `|A B - I|_ij <= 2^8 n u max((|A||B|)_ij, max|A| max_k|B_kj|)` and
 /// `|B A - I|_ij <= 2^8 n u k max((|B||A|)_ij, max_k|B_ik| max|A|)`, `k = max(1, |A|_inf |B|_inf)`, `u = 2^-53`.
+const SAFE_LO: f64 = 4.464794497196387e-103; // 2^-340
+const SAFE_HI: f64 = 2.2397447421778042e102; // 2^340
+
 fn check_products(a: &G, b: &G) -> Result<(), String> {
     let n = a.h;
     if b.h != n || b.w != n {
         return Err(format!("the inverse of a {n}x{n} matrix is {}x{}", b.h, b.w));
     }
+    // NaN / infinite entries are outside the property; entries outside 2^-340 .. 2^340 can under- or overflow in a
+    // product of three, where the (purely relative) rounding model below does not apply: such inputs are generated,
+    // but only compared with the model
+    if !a.v.iter().all(|x| x.is_finite() && (*x == 0.0 || (x.abs() >= SAFE_LO && x.abs() <= SAFE_HI))) {
+        return Ok(());
+    }
     if let Some(k) = b.v.iter().position(|x| !x.is_finite()) {
         return Err(format!("B[{}][{}] is not finite", k / n.max(1), k % n.max(1)));
-    }
-    if a.v.iter().any(|x| !x.is_finite()) {
-        return Ok(());
     }
     let ab: Vec<Big> = a.v.iter().map(|x| Big::of_f64(*x)).collect();
     let bb: Vec<Big> = b.v.iter().map(|x| Big::of_f64(*x)).collect();
@@ -279,6 +285,12 @@ pub fn oracle(a: &G, out: &Out) -> Result<(), String> {
             _ => Err(format!("non-square {}x{} input was not rejected as NonSquareMatrix", a.h, a.w)),
         };
     }
+    if let Out::NonSquare = out {
+        return Err("square input rejected as NonSquareMatrix".into());
+    }
+    if a.v.iter().any(|x| !x.is_finite()) {
+        return Ok(());
+    }
     let (expect, why) = expectation(a);
     match out {
         Out::NonSquare => Err("square input rejected as NonSquareMatrix".into()),
@@ -301,13 +313,21 @@ pub fn oracle(a: &G, out: &Out) -> Result<(), String> {
 
 /// the digest of the C09 sweeps (weighted sum of magnitudes + mask of negative entries)
 fn digest(g: &G) -> String {
+    // as in c09.rs: entries below 2^-30 of the largest one do not enter the sign mask
+    let mut big = 0.0f64;
+    for x in &g.v {
+        if big < x.abs() {
+            big = x.abs();
+        }
+    }
+    let thr = big * 2f64.powi(-30);
     let mut s = 0.0f64;
     let mut mask = 0u64;
     let mut k = 0u32;
     for x in &g.v {
         k += 1;
         s += (k as f64) * x.abs();
-        if *x < 0.0 {
+        if *x < 0.0 && thr <= x.abs() {
             mask |= 1u64 << (k - 1);
         }
     }
@@ -757,5 +777,227 @@ pub fn generate(seed: u64, thorough: bool, emit: &mut dyn FnMut(String)) {
         let v: Vec<f64> = (0..h * w).map(|_| rng.uniform(-1.0, 1.0)).collect();
         emit_inv(emit, "f64", h, w, &v);
         emit(format!("inv2 {}", req_mat_f(h, w, &v)));
+    }
+    harden(&mut rng, thorough, emit);
+}
+
+// ------------------------------------------------------------------------------------------------
+// families added after the seeded-change rounds (scale, size, zeros/signs/ties, NaN)
+
+fn dense(rng: &mut Rng, n: usize) -> Vec<f64> {
+    (0..n * n).map(|_| rng.uniform(-1.0, 1.0)).collect()
+}
+
+fn sgn(rng: &mut Rng) -> f64 {
+    if rng.chance(1, 2) { -1.0 } else { 1.0 }
+}
+
+fn p2(e: i64) -> f64 {
+    2f64.powi(e as i32)
+}
+
+fn shuffle_rows(rng: &mut Rng, n: usize, v: &mut [f64]) {
+    for i in (1..n).rev() {
+        let j = rng.below(i as u64 + 1) as usize;
+        for c in 0..n {
+            v.swap(i * n + c, j * n + c);
+        }
+    }
+}
+
+fn emit_f(emit: &mut dyn FnMut(String), k: usize, n: usize, v: &[f64]) {
+    if k % 5 == 4 {
+        emit(format!("inv2 {}", req_mat_f(n, n, v)));
+    } else if k % 5 == 3 && is_f32(v) {
+        emit_inv(emit, "f32", n, n, v);
+    } else {
+        emit_inv(emit, "f64", n, n, v);
+    }
+}
+
+fn harden(rng: &mut Rng, thorough: bool, emit: &mut dyn FnMut(String)) {
+    let reps = if thorough { 20 } else { 1 };
+
+    // ---- SIZE: every order 9..=40 once (48, 64 in the thorough tier): well conditioned by construction, random
+    // permutations with noise, small integers through an integer element type
+    for n in (9..=40usize).chain([48, 64]) {
+        if n > 40 && !thorough {
+            continue;
+        }
+        let v = conditioned(rng, n, [3.0, 30.0, 300.0][n % 3]);
+        emit_f(emit, n, n, &v);
+        let tau = shuffle(rng, n);
+        let w = perm_matrix(rng, n, &tau, 0.25);
+        emit_inv(emit, "f64", n, n, &w);
+        let mut z: Vec<f64> = (0..n * n).map(|_| rng.range(-1, 1) as f64).collect();
+        for i in 0..n {
+            z[i * n + tau[i]] = (n as f64 + 1.0) * sgn(rng);
+        }
+        emit_inv(emit, INT_TYPES[n % 5], n, n, &z);
+    }
+
+    for (h, w) in [(17usize, 16usize), (16, 17), (40, 39), (39, 40), (1, 40), (40, 1)] {
+        let v: Vec<f64> = (0..h * w).map(|_| rng.uniform(-1.0, 1.0)).collect();
+        emit_inv(emit, "f64", h, w, &v);
+        let z: Vec<f64> = (0..h * w).map(|_| rng.range(0, 1) as f64).collect();
+        emit_inv(emit, ALL_TYPES[(h + w) % 9], h, w, &z);
+    }
+
+    // ---- SCALE
+    for k in 0..480 * reps {
+        let n = 1 + rng.below(8) as usize;
+        let mut v = conditioned(rng, n, [1.0, 10.0, 100.0, 1000.0][k / 8 % 4]);
+        match k % 8 {
+            // the whole matrix at magnitude 2^e: e = -70..60 (below about 2^-52 everything is refused: the pivot
+            // test is absolute), around the threshold, and up to 2^300
+            0 => {
+                let e = rng.range(-70, 60);
+                v.iter_mut().for_each(|x| *x *= p2(e));
+            }
+            1 => {
+                let e = rng.range(-56, -44);
+                v.iter_mut().for_each(|x| *x *= p2(e));
+            }
+            2 => {
+                let e = rng.range(60, 300);
+                v.iter_mut().for_each(|x| *x *= p2(e));
+            }
+            // norm >= 1e12: every entry of the inverse is below 1e-12 (2^40 .. 2^70: the inverse crosses EPSILON)
+            3 => {
+                let e = rng.range(40, 70);
+                v.iter_mut().for_each(|x| *x *= p2(e));
+            }
+            // one huge row / column (2^40 .. 2^70): one column / row of the inverse is tiny
+            4 => {
+                let t = rng.below(n as u64) as usize;
+                let s = p2(rng.range(40, 70));
+                for j in 0..n {
+                    if k % 16 < 8 {
+                        v[t * n + j] *= s;
+                    } else {
+                        v[j * n + t] *= s;
+                    }
+                }
+            }
+            // rows and / or columns scaled by 2^-40 .. 2^40
+            5 | 6 => {
+                for i in 0..n {
+                    let (sr, sc) = (p2(rng.range(-40, 40)), p2(rng.range(-40, 40)));
+                    for j in 0..n {
+                        if k % 16 != 5 {
+                            v[i * n + j] *= sr;
+                        }
+                        if k % 16 != 6 {
+                            v[j * n + i] *= sc;
+                        }
+                    }
+                }
+            }
+            // single entries 2^-60 .. 2^-20 below the rest
+            _ => {
+                for (t, x) in v.iter_mut().enumerate() {
+                    if t / n != t % n && rng.chance(1, 3) {
+                        *x *= p2(-rng.range(20, 60));
+                    }
+                }
+            }
+        }
+        emit_f(emit, k / 8, n, &v);
+    }
+    // graded columns (the part below the diagonal is 10^-t of the head, or exactly zero), rows in order / shuffled
+    for k in 0..136 * reps {
+        let n = 2 + rng.below(7) as usize;
+        let t = (k % 17 + 1) as i32;
+        let mut v = dense(rng, n);
+        for j in 0..n {
+            let mode = rng.below(3);
+            for i in j + 1..n {
+                match mode {
+                    0 => v[i * n + j] *= 10f64.powi(-t),
+                    1 => v[i * n + j] = if rng.chance(1, 2) { 0.0 } else { -0.0 },
+                    _ => {}
+                }
+            }
+            v[j * n + j] = rng.uniform(0.5, 1.0) * sgn(rng);
+        }
+        if k % 2 == 1 {
+            shuffle_rows(rng, n, &mut v);
+        }
+        emit_f(emit, k, n, &v);
+    }
+    // subnormal and near-overflow matrices (outside the oracle's rounding model: compared with the model only)
+    for k in 0..24 * reps {
+        let n = 1 + rng.below(4) as usize;
+        let e = if k % 2 == 0 { -rng.range(1000, 1070) } else { rng.range(900, 1020) };
+        let v: Vec<f64> = dense(rng, n).iter().map(|x| x * p2(e)).collect();
+        emit_inv(emit, "f64", n, n, &v);
+    }
+
+    // ---- ZEROS / SIGNS / TIES
+    for k in 0..320 * reps {
+        let n = 1 + rng.below(8) as usize;
+        let mut v = dense(rng, n);
+        match k % 8 {
+            // every entry negative
+            0 => v.iter_mut().for_each(|x| *x = -x.abs() - 0.01),
+            // in every column the entry of largest magnitude is negative, the others small and positive
+            1 | 2 => {
+                let p = shuffle(rng, n);
+                for j in 0..n {
+                    for i in 0..n {
+                        v[i * n + j] = if p[j] == i { -rng.uniform(2.0, 4.0) } else { rng.uniform(0.01, 0.4) / n as f64 };
+                    }
+                }
+            }
+            // the same in integers (every element type that has a sign)
+            3 => {
+                let p = shuffle(rng, n);
+                for j in 0..n {
+                    for i in 0..n {
+                        v[i * n + j] = if p[j] == i { -(n as f64) - rng.range(1, 3) as f64 } else { rng.range(0, 1) as f64 };
+                    }
+                }
+            }
+            // triangular / diagonal, with signed zeros, rows possibly shuffled
+            4 => (0..n * n).for_each(|t| if t / n > t % n { v[t] = 0.0 } else if t / n == t % n { v[t] = rng.uniform(0.5, 2.0) * sgn(rng) }),
+            5 => (0..n * n).for_each(|t| if t / n < t % n { v[t] = -0.0 } else if t / n == t % n { v[t] = rng.uniform(0.5, 2.0) * sgn(rng) }),
+            6 => (0..n * n).for_each(|t| v[t] = if t / n != t % n { if t % 2 == 0 { 0.0 } else { -0.0 } } else { rng.uniform(0.5, 2.0) * sgn(rng) }),
+            // exact ties in every pivot column: +-1 and +-1/2 only
+            _ => v.iter_mut().for_each(|x| *x = if x.abs() < 0.5 { 0.5 } else { 1.0 } * x.signum()),
+        }
+        if (4..=6).contains(&(k % 8)) && rng.chance(1, 2) {
+            shuffle_rows(rng, n, &mut v);
+        }
+        if k % 8 == 3 {
+            emit_inv(emit, INT_TYPES[k / 8 % 5], n, n, &v);
+        } else {
+            emit_f(emit, k / 8, n, &v);
+        }
+    }
+    // near ties in the pivot column: candidates within 1 +- 10^-t (t = 1..17) of each other
+    for k in 0..102 * reps {
+        let n = 2 + rng.below(7) as usize;
+        let d = 10f64.powi(-((k % 17) as i32 + 1));
+        let mut v = dense(rng, n);
+        for j in 0..n {
+            for i in 0..n {
+                if rng.chance(2, 3) {
+                    v[i * n + j] = (1.0 + d * rng.range(-2, 2) as f64) * sgn(rng);
+                }
+            }
+        }
+        emit_inv(emit, "f64", n, n, &v);
+    }
+
+    // ---- NaN / infinities in the input (correspondence only)
+    for k in 0..48 * reps {
+        let n = 1 + rng.below(4) as usize;
+        let mut v = dense(rng, n);
+        let t = rng.below((n * n) as u64) as usize;
+        v[t] = [f64::NAN, f64::INFINITY, f64::NEG_INFINITY, 1e308, -1.7e308, 5e-324][k % 6];
+        emit_inv(emit, "f64", n, n, &v);
+        if k % 6 < 3 {
+            emit_inv(emit, "f32", n, n, &v.iter().map(|x| *x as f32 as f64).collect::<Vec<f64>>());
+        }
     }
 }
